@@ -1,7 +1,29 @@
 import Litestream.Model.Wal
 import Litestream.Gen.Wal
+import Litestream.Lemmas.WalTop
+import Litestream.Lemmas.WalChunk
 /-!
 # C09 — Only frames SQLite itself treats as committed are ever replicated
+
+Model: `Model/Wal.lean` (byte level).  All theorems quantify over **every byte string** `b`
+(no size bound), both checksum byte orders and every header page size admitted by the stated
+hypotheses.  Hypotheses forced by the proofs (DESIGN §3 C09, E1 in §4) are explicit and decidable:
+
+* `goodPageSize h.ps` — SQLite ignores a WAL whose header page size is not a power of two in
+  512..65536; litestream does not test it (a size that is not a multiple of 8 makes `WALChecksum`
+  panic — `Err.misaligned` in the model).
+* `noZeroPgno` — no frame passing litestream's salt + cumulative-checksum test has `pgno = 0`
+  (SQLite's `walDecodeFrame` rejects such a frame, litestream accepts it).
+* `commitKept` — the last commit frame's own page number does not exceed its commit size; needed for
+  the *end offset* and *commit* outputs only (otherwise the commit frame is trimmed from the map and
+  `end`, computed from the highest kept offset, falls short; with an empty map `(∅,0,0)` is returned).
+
+All three excluded points need a re-checksummed forgery; the engine's malformed stream runs them on the
+real code and records the outcome in the evidence (`excluded-outcome:*`).
+
+Not modelled: the reader's state after a *failed* `ReadFrame` (the Go code leaves a polluted running
+checksum behind after a checksum mismatch; `pageMap` never calls `ReadFrame` again, and the engine
+observes `eof` on a second call in every case it runs).
 -/
 namespace Litestream.C09
 open Litestream.Wal
@@ -19,5 +41,206 @@ theorem gen_hdrFields_eq : Gen.Wal.readHeaderFields =
 /-- field offsets decoded by `readFrame` are the ones `parseFrame` uses -/
 theorem gen_frameFields_eq : Gen.Wal.readFrameFields =
     [(0, "pgno"), (4, "commit"), (8, "salt1"), (12, "salt2"), (16, "chksum1"), (20, "chksum2")] := by decide
+
+/-! ## Hypotheses (decidable) -/
+
+/-- E1: no frame that passes litestream's test carries page number 0. -/
+def noZeroPgno (h : Hdr) (fs : List Frame) : Bool :=
+  (List.range fs.length).all (fun i => !lsValidAt h fs i || sqValidAt h fs i)
+
+theorem noZeroPgno_spec (h : Hdr) (fs : List Frame) (hz : noZeroPgno h fs = true) :
+    ∀ i, lsValidAt h fs i = true → sqValidAt h fs i = true := by
+  intro i hl
+  by_cases hi : i < fs.length
+  · have := (List.all_eq_true.mp hz) i (List.mem_range.mpr hi)
+    rw [hl] at this; simpa using this
+  · have : fs[i]? = none := List.getElem?_eq_none_iff.mpr (by omega)
+    unfold lsValidAt at hl; rw [this] at hl; cases hl
+
+/-- E1 (end offset only): the last commit frame is not trimmed out of the page map. -/
+def commitKept (r : Recovered) : Bool :=
+  r.mx == 0 || (match r.vp[r.mx - 1]? with | some f => decide (f.pgno ≤ r.commit) | none => false)
+
+/-! ## Theorems -/
+
+/-- **reader_valid_prefix.** Repeated `ReadFrame` on `NewWALReader(b)` yields exactly the frames of the
+    longest prefix whose salts equal the header salts and whose cumulative checksum chains from the
+    header checksum, then `io.EOF`. Byte level, every `b`, both byte orders. -/
+theorem reader_valid_prefix (b : Bytes) (h : Hdr) (hh : parseHdr b = .ok h) (h8 : h.ps % 8 = 0) :
+    ∃ r, newReader b = .ok r ∧
+      framesRead r = ((lsPrefix h b).map (fun f => (f.pgno, f.commit)), .eof) := by
+  refine ⟨readerOf b h, newReader_ok b h hh, ?_⟩
+  rw [framesRead_eq_list _ h8, remaining_readerOf]
+
+/-- The valid prefix is maximal: the frame right after it (if there is a complete one) fails the
+    salt / cumulative-checksum test — the reader stops at the **first** invalid frame. -/
+theorem valid_prefix_maximal (h : Hdr) (fs : List Frame) (hlt : nValid (lsValidAt h fs) fs < fs.length) :
+    lsValidAt h fs (nValid (lsValidAt h fs) fs) = false := by
+  have := countPrefix_stop (lsValidAt h fs) fs.length 0 hlt
+  simpa [nValid] using this
+
+/-- …and every frame inside it passes. -/
+theorem valid_prefix_valid (h : Hdr) (fs : List Frame) (i : Nat) (hi : i < nValid (lsValidAt h fs) fs) :
+    lsValidAt h fs i = true := by
+  have := countPrefix_valid (lsValidAt h fs) fs.length 0 i hi
+  simpa using this
+
+/-- Without a readable header nothing is read at all. -/
+theorem bad_header_reads_nothing (b : Bytes) (e : Err) (hh : parseHdr b = .error e) (off : Nat) (salt : Ck) :
+    newReader b = .error e ∧ (newReaderAt b off salt = .error e ∨ newReaderAt b off salt = .error .offset) := by
+  constructor
+  · unfold newReader; rw [hh]
+  · unfold newReaderAt
+    by_cases ho : off ≤ hdrSize
+    · right; rw [if_pos ho]
+    · left; rw [if_neg ho, hh]
+
+/-- **pageMap_eq_recover.** `PageMap()` on `NewWALReader(b)` equals what SQLite recovers from `b`:
+    for every page the offset of its latest version up to the last valid commit frame, no page beyond
+    the committed size; under `commitKept` also the commit size and the end offset. -/
+theorem pageMap_eq_recover (b : Bytes) (h : Hdr) (hh : parseHdr b = .ok h)
+    (hps : goodPageSize h.ps = true) (hz : noZeroPgno h (rawFrames h.ps b) = true) :
+    ∃ r res rec, newReader b = .ok r ∧ pageMap0 r = .ok res ∧ recover b = some rec ∧
+      (∀ pg, pmGet res.m pg = rec.look pg) ∧ res.limited = false ∧
+      (commitKept rec = true → res.commit = rec.commit ∧ res.end_ = rec.end_) := by
+  have h8 := goodPageSize_mod8 hps
+  have hsq := sqPrefix_eq_lsPrefix h b (noZeroPgno_spec _ _ hz)
+  obtain ⟨st, hst, hinv⟩ := pmList_spec h.ps (frameOff h.ps 0) (lsPrefix h b)
+  have hpm : pageMap0 (readerOf b h) = .ok (pmFinish h.ps st false) := by
+    unfold pageMap0
+    rw [pageMap_eq_list _ _ (show (readerOf b h).ps % 8 = 0 from h8), remaining_readerOf]
+    show Except.ok (pmFinish h.ps (pmList h.ps (frameOff h.ps 0) 0 0 (lsPrefix h b) {}).1
+      (pmList h.ps (frameOff h.ps 0) 0 0 (lsPrefix h b) {}).2) = _
+    rw [hst]
+  refine ⟨readerOf b h, pmFinish h.ps st false,
+    { mx := mxFrame (lsPrefix h b), commit := commitOf (lsPrefix h b) (mxFrame (lsPrefix h b)), vp := lsPrefix h b, ps := h.ps },
+    newReader_ok b h hh, hpm, ?_, ?_, ?_, ?_⟩
+  · unfold recover; rw [hh]; simp only [hps, if_true, hsq]
+  · intro pg
+    rw [pmFinish_get, hinv.commit, hinv.m_get]
+    unfold Recovered.look
+    dsimp only
+    by_cases hp : pg ≤ commitOf (lsPrefix h b) (mxFrame (lsPrefix h b))
+    · rw [if_pos hp, if_neg (by omega)]
+    · rw [if_neg hp, if_pos (by omega)]
+  · by_cases he : (st.m.filter (fun p => decide (p.1 ≤ st.commit))).isEmpty = true <;> simp [pmFinish, he]
+  · intro hk
+    unfold commitKept at hk
+    simp only [Bool.or_eq_true, beq_iff_eq] at hk
+    unfold Recovered.end_
+    by_cases h0 : mxFrame (lsPrefix h b) = 0
+    · have := finish_none h.ps _ st false hinv h0
+      simp only [h0, if_true]
+      rw [this.1, this.2]; simp [commitOf]
+    · simp only [h0, if_false]
+      rcases hk with hk | hk
+      · exact absurd hk h0
+      · cases hg : (lsPrefix h b)[mxFrame (lsPrefix h b) - 1]? with
+        | none => simp only [hg] at hk; cases hk
+        | some f =>
+          simp only [hg, decide_eq_true_eq] at hk
+          exact finish_kept h.ps _ st false hinv f h0 hg hk
+
+/-- **resume_eq_drop.** `NewWALReaderWithOffset` at the boundary before frame `k` (1 ≤ k ≤ length of the
+    valid prefix) with the header salts succeeds, is seeded so that it delivers exactly the valid prefix
+    minus its first `k` frames, and its `pageMap` is the loop over exactly those frames. -/
+theorem resume_eq_drop (b : Bytes) (h : Hdr) (hh : parseHdr b = .ok h) (h8 : h.ps % 8 = 0)
+    (k : Nat) (hk0 : 0 < k) (hk : k ≤ (lsPrefix h b).length) :
+    ∃ r, newReaderAt b (frameOff h.ps k) h.salt = .ok r ∧
+      framesRead r = (((lsPrefix h b).drop k).map (fun f => (f.pgno, f.commit)), .eof) ∧
+      ∀ mx, pageMap r mx = .ok (pmFinish h.ps
+        (pmList h.ps (frameOff h.ps k) mx k ((lsPrefix h b).drop k) {}).1
+        (pmList h.ps (frameOff h.ps k) mx k ((lsPrefix h b).drop k) {}).2) := by
+  obtain ⟨r, hr, hps, hn, hrem⟩ := newReaderAt_ok b h hh k hk0 hk
+  refine ⟨r, hr, ?_, ?_⟩
+  · rw [framesRead_eq_list r (by rw [hps]; exact h8), hrem]
+  · intro mx
+    rw [pageMap_eq_list r mx (by rw [hps]; exact h8), hrem, hps, hn]
+
+/-- **resume_rejects.** If the frame before `off` is missing/incomplete or does not carry the salt the
+    caller expects, `NewWALReaderWithOffset` returns `PrevFrameMismatchError` (db.go then falls back to a
+    full read from the WAL header). -/
+theorem resume_rejects (b : Bytes) (h : Hdr) (hh : parseHdr b = .ok h) (off : Nat) (salt : Ck)
+    (hoff : hdrSize < off) (hal : (off - hdrSize) % (h.ps + fhSize) = 0)
+    (hbad : ∀ f, (rawFrames h.ps b)[(off - hdrSize) / (h.ps + fhSize) - 1]? = some f → f.salt ≠ salt) :
+    newReaderAt b off salt = .error .prevFrame :=
+  newReaderAt_rejects b h hh off salt hoff hal hbad
+
+/-- **nothing_after_invalid.** Everything the reader outputs (`ReadFrame` results, `pageMap` with any
+    budget) is a function of the header and the valid prefix alone: two files with the same header and
+    the same valid prefix give identical results, whatever bytes sit in or after the first invalid frame. -/
+theorem nothing_after_invalid (b b' : Bytes) (h : Hdr) (hh : parseHdr b = .ok h) (hh' : parseHdr b' = .ok h)
+    (h8 : h.ps % 8 = 0) (hvp : lsPrefix h b = lsPrefix h b') :
+    ∃ r r', newReader b = .ok r ∧ newReader b' = .ok r' ∧ framesRead r = framesRead r' ∧
+      ∀ mx, pageMap r mx = pageMap r' mx := by
+  refine ⟨readerOf b h, readerOf b' h, newReader_ok b h hh, newReader_ok b' h hh', ?_, ?_⟩
+  · rw [framesRead_eq_list _ (show (readerOf b h).ps % 8 = 0 from h8),
+      framesRead_eq_list _ (show (readerOf b' h).ps % 8 = 0 from h8), remaining_readerOf, remaining_readerOf, hvp]
+  · intro mx
+    rw [pageMap_eq_list _ _ (show (readerOf b h).ps % 8 = 0 from h8),
+      pageMap_eq_list _ _ (show (readerOf b' h).ps % 8 = 0 from h8), remaining_readerOf, remaining_readerOf, hvp]
+    rfl
+
+/-- …in particular cutting the file right after the valid prefix changes nothing (list level: the
+    loop only ever sees `lsPrefix`). -/
+theorem pageMap_sees_only_valid_prefix (b : Bytes) (h : Hdr) (hh : parseHdr b = .ok h) (h8 : h.ps % 8 = 0) (mx : Nat) :
+    ∃ r, newReader b = .ok r ∧ pageMap r mx = .ok (pmFinish h.ps
+        (pmList h.ps (frameOff h.ps 0) mx 0 (lsPrefix h b) {}).1
+        (pmList h.ps (frameOff h.ps 0) mx 0 (lsPrefix h b) {}).2) := by
+  refine ⟨readerOf b h, newReader_ok b h hh, ?_⟩
+  rw [pageMap_eq_list _ _ (show (readerOf b h).ps % 8 = 0 from h8), remaining_readerOf]
+  rfl
+
+/-! ### Chunked reading (MaxSyncWALBytes)
+
+Full statement (DESIGN): for every budget, folding `pageMap` with that budget from successive end
+offsets yields the page map (content) and end offset of the unbudgeted `pageMap`.
+
+Proved (`…_partial`, list level over the accepted frames, no hypotheses): (1) the budget can stop the
+loop only directly after a commit frame has been merged (`budget_stops_at_commit`); (2) the unbudgeted
+loop equals the budgeted chunk followed by the unbudgeted loop on the remaining frames started from the
+chunk's state (`chunk_then_rest`); (3) continuing from a chunk's state is, page by page, the fresh map of
+the rest laid over the chunk's map, untrimmed (`chunks_compose_partial`).  Together with
+`resume_eq_drop` (the next reader sees exactly the remaining frames) this gives composition of the
+**untrimmed** maps for every budget.  NOT proved: the interplay with the per-chunk trim `pgno > commit`
+(it needs the extra hypothesis that a page beyond an earlier chunk's commit size is rewritten before the
+database regrows over it — true of every WAL SQLite writes, false for some re-checksummed forgeries, see
+the evidence counter `excluded-outcome:forged-regrowth->chunks-differ`), and the byte-level `chunks`
+loop as a whole (end offset = next start, which needs `commitKept` per chunk).  Both are covered by the
+engine (`chunks` op: model vs code, and the composition oracle on every budget around every commit). -/
+
+theorem budget_stops_at_commit (ps start mx i : Nat) (vp : List Frame) (st st' : PMState)
+    (h : pmList ps start mx i vp st = (st', true)) : st'.tx = [] ∧ st'.commit ≠ 0 :=
+  pmList_limited_tx ps start mx i vp st st' h
+
+theorem chunk_then_rest (ps start mx i : Nat) (vp : List Frame) (st st1 : PMState)
+    (h : pmList ps start mx i vp st = (st1, true)) :
+    ∃ j, j ≤ vp.length ∧ 0 < j ∧ pmList ps start 0 i vp st = pmList ps start 0 (i + j) (vp.drop j) st1 :=
+  pmList_split ps start mx i vp st st1 h
+
+theorem chunks_compose_partial (ps start i : Nat) (vp : List Frame) (st1 : PMState) (htx : st1.tx = []) (pg : Nat) :
+    pmGet (pmList ps start 0 i vp st1).1.m pg =
+      orElse' (pmGet (pmList ps start 0 i vp {}).1.m pg) (pmGet st1.m pg) :=
+  pmList_from_state ps start i vp st1 htx pg
+
+/-! ## Non-vacuity: a concrete 3-frame big-endian WAL (page size 512; frames: page 2, page 1 + commit 2,
+     page 1 uncommitted) satisfies every hypothesis above. -/
+
+def exHdr : Bytes := [55, 127, 6, 131, 0, 45, 226, 24, 0, 0, 2, 0, 0, 0, 0, 0, 0, 0, 0, 7, 0, 0, 0, 9, 22, 4, 202, 222, 188, 221, 164, 160]
+def exFrame (pg commit : UInt8) (ck : List UInt8) (fill : UInt8) : Bytes :=
+  [0,0,0,pg, 0,0,0,commit, 0,0,0,7, 0,0,0,9] ++ ck ++ List.replicate 512 fill
+def exWal : Bytes := exHdr ++ exFrame 2 0 [207, 171, 10, 1, 216, 4, 109, 102] 1 ++ exFrame 1 2 [135, 58, 18, 154, 109, 207, 73, 244] 2 ++ exFrame 1 0 [140, 10, 128, 165, 154, 143, 224, 163] 3
+
+def exH : Hdr := { be := true, ps := 512, salt := (7, 9), ck := (369412830, 3168642208) }
+
+example : parseHdr exHdr = .ok exH := by rfl
+example : (match parseHdr exWal with | .ok h => decide (h = exH) | .error _ => false) = true := by decide +kernel
+example : goodPageSize exH.ps = true := by decide
+example : exH.ps % 8 = 0 := by decide
+example : noZeroPgno exH (rawFrames exH.ps exWal) = true := by decide +kernel
+example : (lsPrefix exH exWal).length = 3 := by decide +kernel
+example : (recover exWal).map (fun r => (r.mx, r.commit, r.pages, commitKept r)) = some (2, 2, [(2, 32), (1, 568)], true) := by decide +kernel
+/-- a budget that stops the first chunk exists -/
+example : (pmList 512 32 1 0 (lsPrefix exH exWal) {}).2 = true := by decide +kernel
 
 end Litestream.C09
